@@ -256,6 +256,15 @@ def build(entry, ch, acc, max_faults=4, shapes=None, flavor='plain', avoid='~*:^
             k = envelope_fault(doc, ch, reencoded=len(set(avoid)) > 4)
             if k:
                 exps.append({'kind': 'env:' + k})
+    if envelope and ch.chance(.07):
+        # a spelling defect (blank in front of the identifier, separators after the last element) on the first body segment of
+        # a set - BHT, BPR, BGN ...: the segment at which the validator may switch maps and handles the reader's errors itself
+        first = [doc.segs[i_ + 1] for i_, s_ in enumerate(doc.segs[:-1]) if s_.id == 'ST' and doc.segs[i_ + 1].id not in ('SE', 'ST', 'GE', 'IEA')
+                 and getattr(doc.segs[i_ + 1], 'raw_pattern', None) is None]
+        if first:
+            s_ = first[ch.integer(0, len(first) - 1)]
+            s_.tags.add(ch.choice(['lead-blank', 'trail-sep']))
+            exps.append({'kind': 'env:spelling'})
     return doc, exps
 
 
@@ -346,7 +355,12 @@ def _envelope_fault(doc, ch, reencoded=False):
         if not c:
             return None
         env = [s_ for s_ in c if s_.id in ('GS', 'ST', 'SE', 'GE', 'IEA')]
-        pool = env if env and ch.chance(.5) else c
+        # ... often on an envelope segment, or on the body segment right after an ST / right before an SE (BHT, BPR, BGN ...: where
+        # the validator switches maps and tables and handles the reader's errors itself)
+        edge = [s_ for i_, s_ in enumerate(doc.segs) if s_ in c and s_.id not in ('GS', 'ST', 'SE', 'GE', 'IEA', 'TA1') and
+                ((i_ > 0 and doc.segs[i_ - 1].id == 'ST') or (i_ + 1 < len(doc.segs) and doc.segs[i_ + 1].id == 'SE'))]
+        r_ = ch.integer(0, 9)
+        pool = env if env and r_ < 4 else edge if edge and r_ < 7 else c
         s_ = pool[ch.integer(0, len(pool) - 1)]
         what = ch.choice(['lead-blank', 'trail-sep', 'both'])
         if what in ('lead-blank', 'both'):
